@@ -313,3 +313,17 @@ mutant("c19-create-before-table", "C19", "C19.dom.refuse-first", CLIM,
 mutant("c19-progress-short-buffer", "C19", "C19.prov.progress", CLIP, "        let out = self.reader.read(buf)?;", "        let n = buf.len().min(4096);\n        let out = self.reader.read(&mut buf[..n / 2 * 2])?;")
 mutant("c19-progress-count-changed", "C19", "C19.prov.progress", CLIP, "        self.update(out as u64);\n        Ok(out)", "        self.update(out as u64);\n        Ok(out.min(self.total))")
 mutant("c19-library-loses-fastest", "C19", "C19.exh.levels", FCOMP, "                CompressionLevel::Fastest => {\n                    compress_fastest(&mut self.state, last_block, uncompressed_data, output)\n                }", "                CompressionLevel::Fastest if read_bytes > 0 => {\n                    compress_fastest(&mut self.state, last_block, uncompressed_data, output)\n                }")
+
+# ---- C20 -------------------------------------------------------------------------------
+DMOD = "ruzstd/src/dictionary/mod.rs"
+DRES = "ruzstd/src/dictionary/reservoir.rs"
+DCOV = "ruzstd/src/dictionary/cover.rs"
+mutant("c20-f7-revert", "C20", "C20.dep.size", DMOD, "    while total_size > dict_size {\n        match pool.pop() {\n            Some(segment) => total_size -= segment.0.raw.len(),\n            None => break,\n        }\n    }\n", "    let _ = total_size;\n")
+mutant("c20-f7-tiny-path", "C20", "C20.dep.size", DMOD, "        buf.truncate(dict_size);\n", "")
+mutant("c20-reduction-wrong-bound", "C20", "C20.dep.size", DMOD, "    while total_size > dict_size {", "    while total_size > source_size {")
+mutant("c20-d10-revert", "C20", "C20.dom.risky", DMOD, "        segment_size: usize::min(2048, source_size) as u32,", "        segment_size: u32::min(2048, source_size as u32),")
+mutant("c20-d8-revert-lake", "C20", "C20.dom.risky", DRES, "        if self.lake.is_empty() {\n            return self.lake;\n        }\n", "")
+mutant("c20-d8-revert-sample", "C20", "C20.dom.risky", DMOD, "    if collection_sample.is_empty() {\n        // The source turned out to be empty (the size was only an estimate): nothing to build from\n        return;\n    }\n", "")
+mutant("c20-sample-size-floor", "C20", "C20.dom.risky", DMOD, "    let sample_size = usize::max(\n        16,", "    let sample_size = usize::max(\n        8,")
+mutant("c20-epoch-divisor", "C20", "C20.dom.risky", DCOV, "    let mut num_epochs: usize = usize::max(1, max_dict_size / params.segment_size as usize);", "    let mut num_epochs: usize = max_dict_size / params.segment_size as usize;")
+benign("c20-reorder-min-args", "C20", DMOD, "        segment_size: usize::min(2048, source_size) as u32,", "        segment_size: usize::min(source_size, 2048) as u32,")
